@@ -1449,6 +1449,95 @@ def raising_tests_stage(ctx):
             raise RuntimeError(f"exit code model mismatch on raising tests: impl {exitcode}, model {model_exit}, results {got}")
 
 
+KEY_SETUP = "setup-filter"
+SETUP_REPLIES = ["sat", "unsat", "unknown", "timeout", "garbage", "empty", "exit", "binary", "sat_rc", "unsat_rc"]
+
+
+def setup_contract(npaths):
+    """setUp() forks on fresh symbolic GAS values into `npaths` (2 or 3) non-reverting paths; one passing test, one failing"""
+    art = H()["art"]
+    x = asm.calldata_arg(0)
+    fork = ["GAS", ("push", 1), "AND"]
+    su = []
+    for _ in range(npaths - 1):
+        su += asm.if_then(fork, ["STOP"])
+    return art.TestContract("S", [art.Fn("check_pass(uint256 x)", asm.return_empty()),
+                                  art.Fn("check_fail(uint256 x)", asm.if_then(asm.eq_const(x, 7), asm.panic(1))),
+                                  art.Fn("setUp()", su)])
+
+
+def setup_filter_stage(ctx):
+    """the solver filter over the non-reverting setUp() paths: scripted replies per setUp path; a path is discarded only on
+    `unsat`; more than one path left (or none, or a raising solver call) => setUp fails, no test of the contract has a result,
+    exit code 1. Fail-safe: an unknown / timed-out / crashed / garbage / empty reply never helps a test to PASS."""
+    h = H()
+    art, stub = h["art"], h["stub"]
+    rng = ctx.rng
+    directed = [["sat", "unknown"], ["garbage", "sat"], ["sat", "empty"], ["sat", "timeout"],
+                ["sat", "unsat"], ["unsat", "unsat"], ["sat", "unsat", "unknown"], ["unsat", "sat", "unsat_rc"]]
+    more = [["exit", "sat"], ["binary", "sat"], ["unsat", "unknown"], ["unknown", "sat"], ["sat", "garbage"], ["empty", "sat"], ["sat", "exit"], ["unsat", "sat_rc"], ["sat", "sat"],
+            ["unknown", "unsat", "sat"], ["sat", "sat", "binary"]]
+    combos = list(directed) + ([] if ctx.tier == "quick" else more)
+    if ctx.tier != "quick":
+        combos += [list(t) for t in itertools.product(SETUP_REPLIES, repeat=2)]
+        combos += [[rng.choice(SETUP_REPLIES) for _ in range(3)] for _ in range(60)]
+    else:
+        combos += [rng.choice(more)]   # one more, drawn from the rest
+    lines, items = [], []
+    for reps in combos:
+        if reps.count("timeout") > 1:
+            reps = [r if (r != "timeout" or i == reps.index("timeout")) else "unknown" for i, r in enumerate(reps)]
+        tmp = tempfile.mkdtemp(prefix="verif_c05su_")
+        texts = {}
+
+        def inspect(wd, run, texts=texts):
+            for f in glob.glob(os.path.join(wd, "smt", "setUp", "*.smt2.out")):
+                texts[int(os.path.basename(f).split(".")[0])] = open(f).read()
+
+        try:
+            with stub.Script(tmp) as s:
+                for j, kind in enumerate(reps):
+                    rep = {"kind": kind, "text": "Segmentation fault\n"}
+                    s.rule({"fn": "setUp", "path": j}, **stub_fields(rep, False))
+                s.default(reply="sat", model={"p_x_uint256": 7})
+                s.write()
+                run = art.run_main_offline([setup_contract(len(reps))], solver_command=s.command, solver_threads=1,
+                                           solver_timeout_assertion="900ms" if "timeout" in reps else "8s", inspect=inspect)
+                started = sorted(int(r["q"].split("/")[1]) for r in s.log() if r["ev"] == "start" and r["q"].startswith("setUp/"))
+        finally:
+            shutil.rmtree(tmp, ignore_errors=True)
+        got = {r.name.split("(")[0]: r.exitcode for rs in (run.test_results or {}).values() for r in rs}
+        procs = ";".join(proc_of({"kind": k, "text": "Segmentation fault\n"}, [], False,
+                                 texts.get(j, canned_text({"kind": k, "text": "Segmentation fault\n"}))) for j, k in enumerate(reps))
+        lines.append(f"setup 0 {procs}")
+        items.append((reps, got, run.exitcode, started, run.stdout))
+        ctx.case(("setup", tuple(reps)), nontrivial=True)
+        ctx.count(f"setup-filter:paths={len(reps)}")
+    rep = _Lean.ask(ctx, lines)
+    mism = []
+    for (reps, got, exitcode, started, stdout), model in zip(items, rep):
+        # the property's view, independent of the model: every setUp path whose query was not answered unsat is a possible
+        # initial state; unless exactly one is left (and no solver call failed on the way) no test may be reported
+        not_unsat = [k for k in reps if ANSWER[k] != "u"]
+        unknown_or_failed = [k for k in reps if ANSWER[k] in ("t", "f")]
+        ran = bool(got)
+        ctx.count(f"setup-filter:{'tests-ran' if ran else 'setUp-rejected'}")
+        if ran and (len(not_unsat) != 1):
+            ctx.violation(f"{KEY_SETUP}:tests-run-although-{len(not_unsat)}-setUp-paths-were-not-refuted"
+                          + (":unknown-or-failed-reply-dropped" if unknown_or_failed else ""),
+                          f"setUp() has {len(reps)} non-reverting paths with solver replies {reps}; {len(not_unsat)} of them were not answered "
+                          f"unsat, so setUp must fail, but the tests ran: {got}, exit code {exitcode}", {"kind": "setup", "reps": reps})
+        elif ran and (got.get("check_pass") != 0 or got.get("check_fail") != 1 or exitcode != 1):
+            ctx.violation(f"{KEY_SETUP}:wrong-results-after-accepted-setUp", f"replies {reps}: results {got}, exit {exitcode}", {"kind": "setup", "reps": reps})
+        elif not ran and exitcode != 1:
+            ctx.violation(f"{KEY_SETUP}:exit-code-{exitcode}-after-rejected-setUp", f"replies {reps}: no test ran, exit code {exitcode}",
+                          {"kind": "setup", "reps": reps})
+        elif (model == "ok") != ran:
+            mism.append(f"setUp filter model mismatch: replies {reps}: model {model}, tests ran: {ran} ({got}); queries started {started}\n{stdout[-600:]}")
+    if mism:
+        raise RuntimeError(f"{len(mism)} mismatch(es); first: {mism[0]}")
+
+
 def correspond(ctx):
     rng = ctx.rng
     lits = harvest_literals()
@@ -1479,6 +1568,7 @@ def correspond(ctx):
     stage("parallel-paths", lambda: parallel_paths_stage(ctx))
     stage("stale-dump", lambda: stale_dump_stage(ctx))
     stage("raising-tests", lambda: raising_tests_stage(ctx))
+    stage("setup-filter", lambda: setup_filter_stage(ctx))
 
     t_e2e = time.time()
     pend = Pending()
@@ -1579,6 +1669,14 @@ def replay(ctx, data) -> bool:
         want = fl if fl in ("sat", "unsat", "unknown") else "err"
         print(f"from_result({r['text']!r}, rc={r['rc']}) -> {kind}; expected {want}")
         return kind != want or (kind == "sat" and so.model.is_valid != ("f_evm_" not in r["text"]))
+    if r.get("kind") == "setup":
+        sub = SimpleNamespace(violations=[], count=lambda *a, **k: None, case=lambda *a, **k: None, tier="quick", rng=ctx.rng,
+                              lean=ctx.lean)
+        sub.violation = lambda key, what, rep: sub.violations.append((key, what))
+        setup_filter_stage(sub)
+        for key, what in sub.violations:
+            print(key, "—", what)
+        return bool(sub.violations)
     if r.get("kind") == "raising":
         sub = SimpleNamespace(violations=[], count=lambda *a, **k: None, case=lambda *a, **k: None, tier="quick", rng=ctx.rng)
         sub.violation = lambda key, what, rep: sub.violations.append((key, what))
